@@ -237,6 +237,20 @@ def run_unit(unit, repo, scratch, features=None, rlimit=30, multiple_errors=4, t
         # a loop invariant that only restates the value specification of the node is a value clause, not an iteration cap
         if kind == 'invariant' and re.match(r'\s*(spec_eval\(expr\) is Free|!\(expr is Med\))', clause):
             kind = 'post'
+        # Tokenizer::next: which lexical class the failed clause of the lexical specification is about (its antecedent says so) - an
+        # arm that was merged, split or renamed by a change has no owner of its own, the clause still has
+        if kind == 'post' and fname == 'next':
+            ante = clause.split('==>')[0]
+            if '!is_super(' in ante and '!is_word_start(' in ante:
+                kind = 'post:other'
+            elif 'is_super(' in ante:
+                kind = 'post:super'
+            elif 'is_word_start(' in ante:
+                kind = 'post:word'
+            elif 'is_sym_start(' in ante:
+                kind = 'post:sym'
+            elif 'is_digit(' in ante or "'.'" in ante:
+                kind = 'post:lit'
         # the progress clause of a parser method (a successful call consumes a token): the measure of the parser's loops and recursion
         if kind == 'post' and re.match(r'\s*res is Ok ==> final\(self\)\.stream\(\)\.len\(\) < old\(self\)\.stream\(\)\.len\(\)\s*$', clause):
             kind = 'progress'
